@@ -101,15 +101,29 @@ def discharge(ctx, claims, out, describe):
 
 
 # ----------------------------------------------------------------------------- runs
-def run_history(mp, rp, tags, batches, where, values):
-    """Execute a history with the given values (symbolic or concrete). Returns (value, infos, others_ok)."""
+def _observe(c):
+    """Every read-only observer of an entry / cell; returns False if they contradict each other."""
+    infos = set(c.infos())
+    one = c.info()
+    it = [cand.info for cand in c]          # iteration yields one Candidate(value, tag) per retained tag
+    ok = (set(it) == infos) and (len(it) == len(infos)) and (len(c) == len(infos)) and ((one is None) if not infos else (one in infos))
+    c.value()
+    c.is_infinite()
+    return ok
+
+
+def run_history(mp, rp, tags, batches, where, values, watched=False):
+    """Execute a history with the given values (symbolic or concrete). Returns (value, infos, others_ok).
+    watched: every observer is also read after each batch (reads must not disturb the entry, and must agree with one another)."""
     cands = [Candidate(v, t) for v, t in zip(values, tags)]
     others_ok = True
     if where == "entry":
         e = Entry(MP[mp], RP[rp])
         for b in batches:
             e.update(*[cands[i] for i in b])
-        return e.value(), set(e.infos()), True
+            if watched:
+                others_ok = _observe(e) and others_ok
+        return e.value(), set(e.infos()), _observe(e) and others_ok
     dims, key, others = where
     t = Table(tuple(ListDimension(3) if d == "L" else DictDimension() for d in dims), MP[mp], RP[rp])
 
@@ -128,6 +142,9 @@ def run_history(mp, rp, tags, batches, where, values):
             c[key[-1]] = cands[b[0]]
         else:
             cell(key).update(*[cands[i] for i in b])
+        if watched:
+            others_ok = _observe(cell(key)) and others_ok
+    others_ok = _observe(cell(key)) and others_ok
     for ok in others:
         c = cell(ok)
         v = c.value()
@@ -155,12 +172,12 @@ def explore_history(item):
     xs = [ctx.var(f"x{i}") for i in range(n)]
     out = dict(obligations=0, discharged=0, fails=[])
     for _ in ctx.paths():
-        value, infos, others_ok = run_history(mp, rp, tags, batches, where, xs)
+        value, infos, others_ok = run_history(mp, rp, tags, batches, where, xs, item.get("watched", False))
         out["obligations"] += 1
         if others_ok:
             out["discharged"] += 1
         else:
-            out["fails"].append(("untouched cells read as infinitely bad with no tags", ctx.model_values(), f"value={value} infos={infos}"))
+            out["fails"].append(("untouched cells read as infinitely bad with no tags; info()/iteration/len agree with infos() at every read", ctx.model_values(), f"value={value} infos={infos}"))
         discharge(ctx, history_obligations(ctx, mp, rp, xs, tags, value, infos), out,
                   lambda: f"value={value} infos={sorted(infos)} pc={ctx.pc_text(6)}")
         if out["fails"]:
@@ -168,11 +185,11 @@ def explore_history(item):
     return ctx, out
 
 
-def concrete_history_fails(mp, rp, tags, batches, wi, vals):
-    value, infos, others_ok = run_history(mp, rp, tags, batches, WHERES[wi], vals)
+def concrete_history_fails(mp, rp, tags, batches, wi, vals, watched=False):
+    value, infos, others_ok = run_history(mp, rp, tags, batches, WHERES[wi], vals, watched)
     fails = []
     if not others_ok:
-        fails.append("untouched cells changed")
+        fails.append("untouched cells changed, or info()/iteration/len contradict infos()")
     if not vals:
         if not (isinf(value) and not infos):
             fails.append("never-written entry not (inf, no tags)")
@@ -318,6 +335,8 @@ def run_combine(mp, rp, T1, T2, v1, v2, w, proxy):
         t = Table((DictDimension(),), MP[mp], RP[rp])
         for a in T1:
             t["k"].update(Candidate(v1, a))
+        if proxy == "written":
+            t["k"].update(Candidate(v1))       # the cell holds a finite value (possibly without any tag): still a combination over retained tags only
         e1 = t["k"]
     else:
         e1 = Entry(v1, set(T1), MP[mp], RP[rp])
@@ -375,7 +394,7 @@ def worker(item):
                    "pre_tagged": bool(item["S"]), "clause": name}
         elif kind == "history":
             vs = [vals[f"x{i}"] for i in range(len(item["tags"]))]
-            cf = concrete_history_fails(item["mp"], item["rp"], item["tags"], item["batches"], item["where"], vs)
+            cf = concrete_history_fails(item["mp"], item["rp"], item["tags"], item["batches"], item["where"], vs, item.get("watched", False))
             sig = {"kind": "history", "item": item, "clause": name}
         else:
             cf = concrete_combine_fails(item["mp"], item["rp"], item["T1"], item["T2"], item["proxy"], vals)
@@ -396,7 +415,7 @@ def replay(data):
         cf = concrete_step_fails(item["mp"], item["rp"], item["vkind"], item["S"], item["tag"], vals)
     elif item["kind"] == "history":
         cf = concrete_history_fails(item["mp"], item["rp"], item["tags"], [list(b) for b in item["batches"]], item["where"],
-                                    [vals[f"x{i}"] for i in range(len(item["tags"]))])
+                                    [vals[f"x{i}"] for i in range(len(item["tags"]))], item.get("watched", False))
     else:
         cf = concrete_combine_fails(item["mp"], item["rp"], item["T1"], item["T2"], item["proxy"], vals)
     for t in cf:
@@ -418,12 +437,13 @@ def history_items(tier, seed):
                         for wi in range(len(WHERES)):
                             if n == full_n and wi not in (0, 3) and tier == "quick":
                                 continue
-                            items.append({"kind": "history", "mp": mp, "rp": rp, "tags": list(tags), "batches": batches, "where": wi})
+                            items.append({"kind": "history", "mp": mp, "rp": rp, "tags": list(tags), "batches": batches, "where": wi,
+                                          "watched": len(batches) >= 2 and (len(items) % 2 == 0)})
     allc = list(compositions(top_n))
     for _ in range(n_top):
         items.append({"kind": "history", "mp": rng.choice(list(MP)), "rp": rng.choice(list(RP)),
                       "tags": [rng.choice(TAGS) for _ in range(top_n)], "batches": rng.choice(allc),
-                      "where": rng.randrange(len(WHERES))})
+                      "where": rng.randrange(len(WHERES)), "watched": rng.random() < 0.5})
     return items, full_n, top_n, n_top
 
 
@@ -437,7 +457,7 @@ def combine_items():
                         continue
                     if rp == "any" and (len(T1) > 1 or len(T2) > 1):
                         continue
-                    for proxy in (False, True):
+                    for proxy in (False, True, "written"):
                         yield {"kind": "combine", "mp": mp, "rp": rp, "T1": T1, "T2": T2, "proxy": proxy}
 
 
@@ -464,7 +484,9 @@ def main(argv=None):
         "inductive step": "every policy pair (2x3), pre-state = symbolic or initial value x tag subset allowed by the policy, one update with tag in {none,a,b}",
         "histories": f"all histories of length <= {full_n} (tags {{none,a,b}}, every batching, 6 placements: standalone entry and cells of "
                      f"1-3 dimensional list/dict tables{' (length ' + str(full_n) + ' on 2 placements)' if tier == 'quick' else ''}); {n_top} seeded histories of length {top_n}",
-        "combine": "tag subsets of {a,b} per side allowed by the policy, symbolic values and symbolic pair weights, Entry and EntryProxy receivers",
+        "combine": "tag subsets of {a,b} per side allowed by the policy, symbolic values and symbolic pair weights, Entry and EntryProxy receivers "
+                   "(never-written cells, tagged cells, and cells written with an untagged candidate)",
+        "reads": "half of the multi-batch histories are 'watched': value/infos/info/iteration/len/is_infinite are read after every batch and must agree",
     }
     rep.assumptions = ["tags are truthy objects (the code treats falsy tags as absent)", "candidate values are finite (property quantifier); "
                        "the initial +-infinity appears only as the default value", "z3 linear integer arithmetic"]
